@@ -31,60 +31,57 @@ def agree(case, impl, model):
     return None
 
 
-# ---- an independent oracle for the 1-D float operations: the left folds in IEEE arithmetic, lane order ----
-import struct, math
-POOL = [0.0, -0.0, 1.0, -1.0, 2.0, 0.5, -2.5, 3.0, 1e300, -1e300, 5e-324, math.inf, -math.inf, math.nan, 7.25, 100.0,
-        1e-10, 1.0000000000000002, -7.0, 0.1]
+# ---- an independent oracle for the 1-D float operations (floatsem.py): exact NaN / infinity behaviour, finite results
+# against the exact rational sum / product within a rounding bound, so neither the order of evaluation nor fused
+# operations are pinned ----
+import math
+from fractions import Fraction as F
+import floatsem
 
 
-def _r32(x):
-    if math.isnan(x) or math.isinf(x):
-        return x
-    try:
-        return struct.unpack("f", struct.pack("f", x))[0]
-    except OverflowError:
-        return math.copysign(math.inf, x)
-
-
-def _bits(x, single):
-    if math.isnan(x):
-        return "nan"
-    if not math.isinf(x) and x == math.floor(x) and abs(x) < (1e7 if single else 1e15) and not (x == 0.0 and math.copysign(1, x) < 0):
-        return str(int(x))
-    return "f" + (struct.pack(">f", x) if single else struct.pack(">d", x)).hex()
-
-
-def float_fold(op, ty, lane):
-    """expected tokens of the 1-D operation `op` on a lane of pool indices, or None when this oracle does not
-    define it (extrema with ties between the two zeros, all-NaN nan-extrema)"""
+def float_judge(op, ty, lane, tokens):
+    """True / False for the tokens the implementation returned for `op` on a lane of pool labels; None = not judged"""
     single = ty == "f32p"
-    rnd = _r32 if single else (lambda v: v)
-    xs = [rnd(POOL[int(i)]) for i in lane]
+    xs = [floatsem.value(i, single) for i in lane]
+    cum = op.startswith("cum") or op.startswith("nancum")
     if op in ("sum", "nansum", "cumsum", "nancumsum", "prod", "nanprod", "cumprod", "nancumprod"):
         mul = "prod" in op
-        skip = op.startswith("nan")
-        acc = 1.0 if mul else 0.0
-        run = []
-        for x in xs:
-            if skip and math.isnan(x):
-                x = 1.0 if mul else 0.0
-            acc = rnd(acc * x) if mul else rnd(acc + x)
-            run.append(acc)
-        if op.startswith("cum") or op.startswith("nancum"):
-            return [_bits(v, single) for v in run]
-        return [_bits(acc, single)]
+        if op.startswith("nan"):
+            xs = [(1.0 if mul else 0.0) if math.isnan(x) else x for x in xs]
+        prefixes = [xs[:k + 1] for k in range(len(xs))] if cum else [xs]
+        if len(tokens) != len(prefixes):
+            return False
+        verdict = True
+        for tok, pre in zip(tokens, prefixes):
+            if mul:
+                spec = floatsem.product_spec(pre)
+                fin = [abs(F(x)) for x in pre if not (math.isnan(x) or math.isinf(x))]
+                up, down = F(1), F(1)
+                for m in fin:
+                    if m >= 1:
+                        up *= m
+                    elif m > 0:
+                        down *= m
+                r = floatsem.judge(tok, spec, single, len(pre), mags=[up, down])
+            else:
+                spec = floatsem.sum_spec([floatsem.product_spec([x]) for x in pre])
+                r = floatsem.judge(tok, spec, single, len(pre))
+            if r is False:
+                return False
+            if r is None:
+                verdict = None
+        return verdict
     if op in ("max", "amax", "min", "amin", "nanmax", "nanmin"):
-        if not xs:
+        if not xs or len(tokens) != 1:
             return None
         nn = [x for x in xs if not math.isnan(x)]
         if op in ("max", "amax", "min", "amin") and len(nn) != len(xs):
-            return ["nan"]
+            return tokens[0] == "nan"
         if not nn:
             return None
         v = max(nn) if "max" in op else min(nn)
-        if v == 0.0 and any(math.copysign(1, x) < 0 for x in nn if x == 0.0) and any(math.copysign(1, x) > 0 for x in nn if x == 0.0):
-            return None
-        return [_bits(v, single)]
+        got = floatsem.token_value(tokens[0], single)
+        return (not math.isnan(got)) and got == v
     return None
 
 
@@ -179,10 +176,9 @@ def gen_rounds(seed, tier, run):
             ty = t[0].split("@")[1]
             op1 = bytes.fromhex(t[1][1:]).decode()
             body = t[2].split(":")[1]
-            want = float_fold(op1, ty, body.split(",") if body else [])
             pa = vlib.parse_arr(r)
-            if want is not None and pa is not None and list(pa[1]) != want:
-                _law_failures.append((q, r, "1-D float operation differs from the left fold in lane order: expected " + ",".join(want)))
+            if pa is not None and float_judge(op1, ty, body.split(",") if body else [], list(pa[1])) is False:
+                _law_failures.append((q, r, "1-D float operation differs from its definition (sum / product / extreme of the lane)"))
     for c, im, q, k, g in pending:
         r = queries[q]
         pa = vlib.parse_arr(r)
